@@ -8,9 +8,9 @@ from props import consts_common
 ID = "C11"
 COQ_TARGETS = ["Run/Run_Gossip.vo", "Run/Run_Round.vo"]
 META = {
-    "text": "C11_silent_stays_unreachable / C11_heard_is_reachable (Compose/LiveFD.v): with the accrual detector of C12 wired into UpdateLiveness as gossip.New does, a peer found unreachable stays unreachable under EVERY schedule of later evaluations and of messages from anybody else until the detector is told it was heard from, and is reachable at an evaluation made the instant it is heard (the real detector inside the real state behind a virtual clock is run against this: silence, recovery, expiry). Theorems (Properties/C11.v) over the Gallina model of ApplyDigest/ApplyDelta/UpdateLiveness/RemoveExpiredAt/LeaveLocal: a digest entry flagged left never creates a node; once a view is marked left it stays left until removed and the liveness evaluation skips it; a node is removed by an expiry sweep iff its expiry is set and the sweep time is after it, left/unreachable transitions stamp expiry = now + 60 s and recovery clears it; unreachable is set/cleared exactly by the detector's verdict; no operation ever marks the local node unreachable, gives it an expiry or removes it, and only its own LeaveLocal sets its left flag. The clause 'stays forgotten unless it really returns' is REFUTED on the faithful model and on the real code (finding F2, zombie re-learned from a peer's digest) and is carried as a known finding with its witness replayed on every run. Every clause is also checked on every step of generated histories of real clusterStates (scripted failure detector) by an independent monitor, and model and implementation are compared field by field.",
+    "text": "C11_silent_stays_unreachable / C11_heard_is_reachable (Compose/LiveFD.v): with the accrual detector of C12 wired into UpdateLiveness as gossip.New does, a peer found unreachable stays unreachable under EVERY schedule of later evaluations and of messages from anybody else until the detector is told it was heard from, and is reachable at an evaluation made the instant it is heard (the real detector inside the real state behind a virtual clock is run against this: silence, recovery, expiry). Theorems (Properties/C11.v) over the Gallina model of ApplyDigest/ApplyDelta/UpdateLiveness/RemoveExpiredAt/LeaveLocal: a digest entry flagged left never creates a node; once a view is marked left it stays left until removed and the liveness evaluation skips it; a node is removed by an expiry sweep iff its expiry is set and the sweep time is after it, left/unreachable transitions stamp expiry = now + 60 s and recovery clears it; unreachable is set/cleared exactly by the detector's verdict; no operation ever marks the local node unreachable, gives it an expiry or removes it, and only its own LeaveLocal sets its left flag. The clause 'stays forgotten unless it really returns' is REFUTED on the faithful model and on the real code (finding F2, zombie re-learned from a peer's digest) and is carried as a known finding with its witness replayed on every run. Every clause is also checked on every step of generated histories of real clusterStates (scripted failure detector) by an independent monitor, and model and implementation are compared field by field. Round 6: C11_round_contacts_unreachable / C11_round_never_self_nor_departed (Gossip/Round.v: every unreachable peer keeps being contacted by gossipRound, which is what lets it be heard from again; a round never addresses the node itself nor a departed peer), tied to real gossipRound calls; C11_expiry_and_marker_are_the_sources on the constants regenerated from the compiled source (coq/generated/Constants.v).",
     "note": "The phi detector itself is C12; here its verdict is an oracle input. Routing status mirroring is checked with C04's harness. Trusted: as C02.",
-    "technique": "Coq proof of the lifecycle clauses on the receiver model + refutation witness (F2) + per-step lifecycle monitor and model/implementation correspondence",
+    "technique": "Coq proof of the lifecycle clauses on the receiver model + refutation witness (F2) + per-step lifecycle monitor and model/implementation correspondence + translator tie for nodeExpiry / the left marker (regenerated constants) + peer-selection model",
 }
 ASSUMPTIONS = ["the failure detector's suspicion levels are inputs (scripted in the harness)",
                "wall-clock 'now' is read back from the stamped expiry (oracle), so expiry = now + 60 s is checked as 'expiry set' on the implementation and exactly on the model",
